@@ -236,7 +236,9 @@ impl<'a> RtcpPacketWriter for TransportFeedbackBuilder<'a> {
         }
         let fci_len = self.fci.calculate_size()?;
 
-        Ok(TransportFeedback::MIN_PACKET_LEN + pad_to_4bytes(fci_len) + self.padding as usize)
+        writer::check_packet_len(
+            TransportFeedback::MIN_PACKET_LEN + pad_to_4bytes(fci_len) + self.padding as usize,
+        )
     }
 
     /// Write this TransportFeedback packet data into `buf` without any validity checks.
@@ -413,7 +415,9 @@ impl<'a> RtcpPacketWriter for PayloadFeedbackBuilder<'a> {
         }
         let fci_len = self.fci.calculate_size()?;
 
-        Ok(PayloadFeedback::MIN_PACKET_LEN + pad_to_4bytes(fci_len) + self.padding as usize)
+        writer::check_packet_len(
+            PayloadFeedback::MIN_PACKET_LEN + pad_to_4bytes(fci_len) + self.padding as usize,
+        )
     }
 
     /// Write this TransportFeedback packet data into `buf` without any validity checks.
